@@ -366,3 +366,63 @@ def sampler_probe(family, params, state=None, nsamples=2000, seed=20240925, repa
         return out
     finally:
         tn.TruncNormal.sample = saved_sample
+
+
+# ------------------------------------------------------------------------------------------------
+# the command-line action
+# ------------------------------------------------------------------------------------------------
+
+def _repaired_goal_to_float(self, goal, state):
+    """SimulationResult._goal_to_float deciding a tail-bound indicator numerically (both sides as doubles)
+    instead of through symengine's Integer-vs-RealDouble relational"""
+    from symengine.lib.symengine_wrapper import Piecewise, LessThan, StrictLessThan, sympify
+    g = sympify(goal)
+    if isinstance(g, Piecewise) and isinstance(g.args[1], (LessThan, StrictLessThan)):
+        a, b = [t.subs(state) for t in g.args[1].args]
+        if not a.is_Number or not b.is_Number:
+            return float("nan")
+        holds = float(a) <= float(b) if isinstance(g.args[1], LessThan) else float(a) < float(b)
+        return 1.0 if holds else 0.0
+    result = g.subs(state)
+    if not result.is_Number:
+        return float("nan")
+    return float(result)
+
+
+def cli_simulation(text, goal_texts, n, samples, repair=False):
+    """`SimulationAction` as the CLI runs it (parse_file, GoalParser, Simulator(simulation_iter), number_samples),
+    every random source answering with its first option; returns the printed `label = value` lines."""
+    import contextlib
+    import io
+    import os
+    import re
+    import tempfile
+    from argparse import Namespace
+    from cli.actions.simulation_action import SimulationAction
+    from simulation.simulation_result import SimulationResult
+    saved_g2f = SimulationResult._goal_to_float
+    if repair:
+        SimulationResult._goal_to_float = _repaired_goal_to_float
+    fd, path = tempfile.mkstemp(suffix=".prob", prefix="c12_")
+    try:
+        with os.fdopen(fd, "w") as fh:
+            fh.write(text)
+        ns = Namespace(goals=list(goal_texts), simulation_iter=n, number_samples=samples)
+        buf = io.StringIO()
+        script = Script([])
+        with Patches(script=script), contextlib.redirect_stdout(buf):
+            SimulationAction(ns)(path)
+    finally:
+        SimulationResult._goal_to_float = saved_g2f
+        try:
+            os.unlink(path)
+        except OSError:
+            pass
+    out = re.sub(r"\x1b\[[0-9;]*m", "", buf.getvalue())
+    tail = out.split("- Simulation Result -")[-1]
+    lines = []
+    for ln in tail.split("\n"):
+        if " = " in ln:
+            k, v = ln.rsplit(" = ", 1)
+            lines.append([k.strip(), v.strip()])
+    return {"lines": lines, "ncalls": len(script.trace)}
